@@ -178,7 +178,14 @@ func routerSession1(r *rand.Rand, k routerKnobs, emit Emit) {
 			path = randomBytesPath(r)
 		}
 		if k.rawPaths {
-			switch r.Intn(5) {
+			switch r.Intn(6) {
+			case 5:
+				// an unknown method token that, glued to the path, spells a known method + a registered route text
+				if len(routes) > 0 {
+					t := routes[r.Intn(len(routes))].text()
+					i := r.Intn(len(t) + 1)
+					method, path = pick(r, []string{"GET", "POST", ""})+t[:i], t[i:]
+				}
 			case 0:
 				path = randomBytesPath(r)
 			case 1:
